@@ -491,3 +491,26 @@ func racePass() {
 		}
 	}
 }
+
+// raceKey classifies the one recorded race: TxPool.put reads (and lazily populates) the *live*
+// StateDB on a submitting thread while the engine thread applies / commits a block to it. The
+// key names the call site, not source lines, because the detector reports whichever pair of
+// accesses it happens to see first.
+func raceKey(rep string) string {
+	for _, blk := range strings.Split(rep, "\n\n") {
+		if !strings.Contains(blk, "mempool.(*TxPool).put()") {
+			continue
+		}
+		// the racing access of this stack must be inside core/state (the live StateDB)
+		for _, line := range strings.Split(blk, "\n") {
+			line = strings.TrimSpace(line)
+			if strings.HasPrefix(line, "/repo/") {
+				if strings.HasPrefix(line, "/repo/core/state/") {
+					return "data-race:TxPool.put-reads-live-StateDB-while-a-block-is-applied"
+				}
+				break
+			}
+		}
+	}
+	return ""
+}
